@@ -64,6 +64,22 @@ def main():
             extra_rounds(ctx, mod, seed)
         except common.EnoughViolations:
             pass
+        except Exception as e:  # noqa
+            # The harness observes the implementation in-process (callbacks, attributes, loader entry points). If it crashes AND the source
+            # sentinel says the anchored files differ from the pinned snapshot, the implementation changed in a way the observation does not
+            # survive: that is a broken correspondence (reported like any other broken obligation, with whatever failing inputs were found
+            # before), not an infrastructure failure. On the pinned tree a crash is a bug of the harness: exit 2.
+            import sentinel
+            try:
+                changed = sentinel.changed(common.REPO, ctx.pid)
+            except Exception:  # noqa
+                changed = []
+            if not changed:
+                raise
+            tb = traceback.format_exc().strip().splitlines()
+            ctx.obligation("correspondence:harness-observes-implementation", False,
+                           f"{type(e).__name__}: {e}"[:300] + " @ " + " / ".join(l.strip() for l in tb[-6:-1])[:500])
+            ctx.notes.append("harness crashed while observing a changed implementation (" + ", ".join(changed[:6]) + "): " + tb[-1][:300])
         return common.finish(ctx, mod)
     except Exception:
         traceback.print_exc()
